@@ -669,13 +669,16 @@ impl BinArchive {
         if address >= self.data.len() {
             return Ok(());
         }
-        let range = address..self.data.len();
-        self.data.drain(range.clone());
-        for i in range.step_by(4) {
-            self.text.remove(&i);
-            self.labels.remove(&i);
-            self.pointers.remove(&i);
+        self.data.drain(address..);
+        // Annotations are keyed by address: drop every one at or beyond the cut, including labels
+        // on the old end address or on unaligned addresses and pending c-strings.
+        self.text.retain(|cell, _| *cell < address);
+        self.labels.retain(|cell, _| *cell < address);
+        self.pointers.retain(|cell, _| *cell < address);
+        for cells in self.cstrings.values_mut() {
+            cells.retain(|cell| *cell < address);
         }
+        self.cstrings.retain(|_, cells| !cells.is_empty());
         Ok(())
     }
 
